@@ -8,6 +8,7 @@ use std::collections::BTreeMap;
 use std::sync::Mutex;
 use vmodel::ast::*;
 use vmodel::enumerate::*;
+pub use vmodel::gen::{corpus, variant};
 use vmodel::model::*;
 use vmodel::par::par_for;
 use vmodel::{Reporter, Tier};
@@ -81,137 +82,6 @@ pub fn dump(o: &Outcome, cross_format: bool) -> String {
             s
         }
     }
-}
-
-fn permute_entries(e: &[(String, Val)], perm: Option<&[usize]>, nested_rev: bool, flip_range_fields: bool) -> Vec<(String, Val)> {
-    let mut out: Vec<(String, Val)> = e
-        .iter()
-        .map(|(k, v)| {
-            let v = match v {
-                Val::Sub(s) => {
-                    let mut s2 = permute_entries(s, None, nested_rev, flip_range_fields);
-                    if nested_rev {
-                        s2.reverse();
-                    }
-                    Val::Sub(s2)
-                }
-                Val::Range(r) if flip_range_fields => Val::Range(RangeDecl {
-                    ty: r.ty.clone(),
-                    branches: r.branches.iter().map(|b| Branch { value_first: !b.value_first, ..b.clone() }).collect(),
-                }),
-                o => o.clone(),
-            };
-            (k.clone(), v)
-        })
-        .collect();
-    if let Some(p) = perm {
-        if p.len() == out.len() {
-            out = p.iter().map(|i| out[*i].clone()).collect();
-        }
-    }
-    out
-}
-
-pub fn variant(p: &Project, perm_by_len: &BTreeMap<usize, Vec<usize>>, big: usize, nested_rev: bool, flip: bool) -> Project {
-    let mut q = p.clone();
-    for entries in q.files.values_mut() {
-        let n = entries.len();
-        let mut e = permute_entries(entries, perm_by_len.get(&n).map(|v| v.as_slice()), nested_rev, flip);
-        if !perm_by_len.contains_key(&n) {
-            // too many keys for all permutations: reverse / rotate
-            match big {
-                1 => e.reverse(),
-                2 => e.rotate_left(1),
-                _ => {}
-            }
-        }
-        *entries = e;
-    }
-    q
-}
-
-fn rb(v: Val, counts: Vec<CountSpec>, map_form: bool) -> Branch {
-    Branch { value: Box::new(v), counts, map_form, value_first: false }
-}
-
-/// The project corpus: small projects of every feature family.
-pub fn corpus(tier: Tier) -> Vec<Project> {
-    let mut out = vec![];
-    let no_ns = |_: usize| -> Option<&'static str> { None };
-    // foreign-key chains of depth 1 (and 2 in thorough), single locale and the 4-locale layout
-    for depth in 1..=tier.pick(1, 2) {
-        for rt in tuples(crate::c06::REFS.len(), depth) {
-            if depth == 2 && (rt[0] * 7 + rt[1]) % 5 != 0 {
-                continue;
-            }
-            let refs: Vec<_> = rt.iter().map(|i| crate::c06::REFS[*i]).collect();
-            for leaf in crate::c06::LEAVES {
-                let perm: Vec<usize> = (0..=depth).collect();
-                let mut e = vec![];
-                for (_, x) in crate::c06::chain_entries(&refs, leaf, &perm, "en", &no_ns) {
-                    e.extend(x);
-                }
-                let mut p = Project::new(Config::simple("en", &["en", "fr"]));
-                let fr: Vec<(String, Val)> = crate::c06::chain_entries(&refs, leaf, &perm, "fr", &no_ns).into_iter().flat_map(|(_, x)| x).collect();
-                p.set_file(None, "en", e);
-                p.set_file(None, "fr", fr);
-                out.push(p);
-            }
-        }
-    }
-    // inheritance maps (many keys per file: reverse / rotate variants)
-    for (i, m) in crate::c03::inherits_maps(&["en", "fr", "de"]).into_iter().enumerate() {
-        if i % tier.pick(5, 2) == 0 {
-            out.push(crate::c03::build_project(&["en", "fr", "de"], &m).0);
-        }
-    }
-    // value forests, literals, repeated identical strings (string-table de-duplication), ranges in both syntaxes
-    let dup = |l: &str| {
-        vec![
-            ("a".to_string(), st("same text")),
-            ("b".to_string(), s(vec![text("same text"), var("x"), text("same text")])),
-            ("c".to_string(), st(&format!("only {l}"))),
-            (
-                "d".to_string(),
-                Val::Range(RangeDecl {
-                    ty: Some("u8".into()),
-                    branches: vec![rb(st("same text"), vec![CountSpec::UInt(0), CountSpec::Str("5..=7".into())], true), rb(s(vec![text("only "), var("count")]), vec![], true)],
-                }),
-            ),
-            ("e".to_string(), Val::Sub(vec![("x".into(), st("same text")), ("y".into(), Val::UInt(7)), ("z".into(), Val::Bool(false))])),
-        ]
-    };
-    let mut p = Project::new(Config::simple("en", &["en", "fr"]));
-    p.set_file(None, "en", dup("en"));
-    p.set_file(None, "fr", dup("fr"));
-    out.push(p);
-    let mut p = Project::new(Config::simple("en", &["en", "fr"]).with_namespaces(&["n1", "n2"]));
-    for ns in ["n1", "n2"] {
-        p.set_file(Some(ns), "en", dup("en"));
-        p.set_file(Some(ns), "fr", dup("fr").into_iter().filter(|(k, _)| k != "c").collect());
-    }
-    out.push(p);
-    for (i, f) in forests(3, &["x"], &["b"]).into_iter().enumerate() {
-        if i % tier.pick(3, 1) != 0 {
-            continue;
-        }
-        let mut a = f.clone();
-        let mut c = i;
-        label_texts(&mut a, "t", &crate::c01::PAYLOADS, &mut c);
-        let mut p = Project::new(Config::simple("en", &["en"]));
-        p.set_file(None, "en", vec![("k1".into(), s(a)), ("k2".into(), Val::Int(-3)), ("k3".into(), Val::Float("1.5".into())), ("k4_one".into(), st("one")), ("k4_other".into(), st("other"))]);
-        out.push(p);
-    }
-    // plural forms, surplus / missing keys (diagnostics must not depend on order)
-    let mut p = Project::new(Config::simple("en", &["en", "fr"]));
-    p.set_file(None, "en", vec![("a".into(), st("A")), ("b".into(), st("B")), ("p_one".into(), st("1")), ("p_other".into(), st("n")), ("p_few".into(), st("few"))]);
-    p.set_file(None, "fr", vec![("z".into(), st("surplus")), ("b".into(), Val::Null), ("y".into(), st("surplus2")), ("p_many".into(), st("m")), ("p_other".into(), st("n"))]);
-    out.push(p);
-    // error projects: the error must not depend on order either
-    let mut p = Project::new(Config::simple("en", &["en"]));
-    p.set_file(None, "en", vec![("a".into(), s(vec![fk("b")])), ("b".into(), s(vec![fk("a")])), ("c".into(), s(vec![fk("nokey")]))]);
-    out.push(p);
-    out
 }
 
 fn fnv(s: &str) -> u64 {
